@@ -30,10 +30,11 @@ Lemma read_name_ok (n : note) img (A1 NP Rest : list Z) off :
   match n_name n with None => true | Some s => no_nul s && all_bytes s end = true ->
   zlen NP = pad4 (zlen (name_bytes n)) ->
   img = A1 ++ name_bytes n ++ NP ++ Rest -> off = zlen A1 ->
-  read_name img off (zlen (name_bytes n))
-  = Ok (n_name n, off + (zlen (name_bytes n) + pad4 (zlen (name_bytes n)))).
+  read_name img off off (zlen (name_bytes n))
+  = Ok (n_name n, off + (zlen (name_bytes n) + pad4 (zlen (name_bytes n))),
+        off + (zlen (name_bytes n) + pad4 (zlen (name_bytes n)))).
 Proof.
-  unfold name_bytes. intros Hname Hnp Hi Ho. unfold read_name. destruct (n_name n) as [s|].
+  unfold name_bytes. intros Hname Hnp Hi Ho. unfold read_name, read_cur. destruct (n_name n) as [s|].
   - apply andb_prop in Hname. destruct Hname as [Hnn _].
     unfold cstring_encode in *. rewrite zlen_app in *. change (zlen [0]) with 1 in *.
     pose proof (zlen_nonneg s) as H0.
@@ -41,12 +42,13 @@ Proof.
     rewrite roundup_2.
     rewrite (read_at_at img A1 ((s ++ [0]) ++ NP) Rest off _).
     + change ((s ++ [0]) ++ NP) with (cstring_encode s ++ NP).
-      rewrite cstring_decode_valid by exact Hnn. reflexivity.
+      rewrite cstring_decode_valid by exact Hnn.
+      unfold cstring_encode. rewrite !zlen_app. change (zlen [0]) with 1. rewrite Hnp. reflexivity.
     + rewrite Hi. rewrite <- !app_assoc. reflexivity.
     + exact Ho.
     + rewrite !zlen_app. change (zlen [0]) with 1. lia.
   - change (zlen (@nil Z)) with 0. cbn [Z.eqb]. rewrite pad4_0.
-    f_equal. f_equal. lia.
+    f_equal. f_equal; [f_equal|]; lia.
 Qed.
 
 Lemma decode_desc_at c d img (A R : list Z) off dsz :
@@ -74,10 +76,10 @@ Proof.
   pose proof (zlen_nonneg (name_bytes n)). pose proof (zlen_nonneg (desc_bytes (scfg_of c) (n_desc n))). lia.
 Qed.
 
-Theorem one_note_ok c n img (A R : list Z) :
+Theorem one_note_ok c n img cur (A R : list Z) :
   wf_cfg c = true -> wf_note (scfg_of c) n = true ->
   img = A ++ encode_note (scfg_of c) n ++ R ->
-  one_note c img (zlen A) = Ok (expected_note (scfg_of c) (zlen A) n, zlen A + note_size (scfg_of c) n).
+  one_note c img cur (zlen A) = Ok (expected_note (scfg_of c) (zlen A) n, zlen A + note_size (scfg_of c) n).
 Proof.
   intros Hc Hwf Hi.
   unfold wf_note in Hwf. rewrite !andb_true_iff in Hwf.
@@ -113,6 +115,7 @@ Proof.
   (* descriptor *)
   assert (Hoff2 : zlen A + 12 + (zlen NB + pad4 (zlen NB)) = zlen (A ++ H ++ NB ++ NP)).
   { rewrite !zlen_app. unfold namesz in Hnpl. fold NB in Hnpl. lia. }
+  unfold read_cur.
   rewrite (read_at_at img (A ++ H ++ NB ++ NP) DB (DP ++ R) _ _);
     [ | rewrite Himg, <- !app_assoc; reflexivity | exact Hoff2 | reflexivity ].
   rewrite (dispatch_spec c (n_name n) (n_type n) Hc). fold sc. rewrite <- Hk.
@@ -126,13 +129,13 @@ Proof.
 Qed.
 
 (* ================================================================== the whole extent *)
-Lemma iter_notes_go_ok c : wf_cfg c = true -> forall ns fuel img (A R : list Z),
+Lemma iter_notes_go_ok c adv : wf_cfg c = true -> forall ns fuel i img (A R : list Z),
   (length ns < fuel)%nat -> wf_notes (scfg_of c) ns = true ->
   img = A ++ encode_notes (scfg_of c) ns ++ R ->
-  iter_notes_go fuel c img (zlen A) (zlen A + zlen (encode_notes (scfg_of c) ns))
+  iter_notes_go fuel c img adv i (zlen A) (zlen A + zlen (encode_notes (scfg_of c) ns))
   = (expected_notes (scfg_of c) (zlen A) ns, None).
 Proof.
-  intros Hc. induction ns as [|n ns IH]; intros fuel img A R Hfuel Hwf Hi.
+  intros Hc. induction ns as [|n ns IH]; intros fuel i img A R Hfuel Hwf Hi.
   - destruct fuel as [|f]; [cbn in Hfuel; lia|].
     cbn [iter_notes_go encode_notes map concat expected_notes]. rewrite sizeof_nhdr.
     change (zlen (@nil Z)) with 0.
@@ -146,13 +149,13 @@ Proof.
     destruct (Z.leb_spec (zlen A + 12)
                 (zlen A + (zlen (encode_note (scfg_of c) n) + zlen (encode_notes (scfg_of c) ns)))); [|lia].
     rewrite <- app_assoc in Hi.
-    rewrite (one_note_ok c n img A _ Hc Hn Hi).
+    rewrite (one_note_ok c n img (adv i) A _ Hc Hn Hi).
     replace (zlen A + note_size (scfg_of c) n) with (zlen (A ++ encode_note (scfg_of c) n))
       by (rewrite zlen_app; lia).
     replace (zlen A + (zlen (encode_note (scfg_of c) n) + zlen (encode_notes (scfg_of c) ns)))
       with (zlen (A ++ encode_note (scfg_of c) n) + zlen (encode_notes (scfg_of c) ns))
       by (rewrite zlen_app; lia).
-    rewrite (IH f img (A ++ encode_note (scfg_of c) n) R); [reflexivity | lia | exact Hns |].
+    rewrite (IH f (S i) img (A ++ encode_note (scfg_of c) n) R); [reflexivity | lia | exact Hns |].
     rewrite Hi, <- !app_assoc. reflexivity.
 Qed.
 
@@ -168,13 +171,13 @@ Qed.
 
 (* iterating the encoding of any well-formed note list, placed anywhere in any image, yields
    exactly the notes with their offsets and padded sizes, without error *)
-Theorem notes_exact c ns (pre tail : list Z) :
+Theorem notes_exact c adv ns (pre tail : list Z) :
   wf_cfg c = true -> wf_notes (scfg_of c) ns = true ->
-  iter_notes c (pre ++ encode_notes (scfg_of c) ns ++ tail) (zlen pre) (zlen (encode_notes (scfg_of c) ns))
+  iter_notes c (pre ++ encode_notes (scfg_of c) ns ++ tail) adv (zlen pre) (zlen (encode_notes (scfg_of c) ns))
   = (expected_notes (scfg_of c) (zlen pre) ns, None).
 Proof.
   intros Hc Hwf. unfold iter_notes.
-  apply (iter_notes_go_ok c Hc ns _ _ pre tail); [| exact Hwf | reflexivity].
+  apply (iter_notes_go_ok c adv Hc ns _ _ _ pre tail); [| exact Hwf | reflexivity].
   pose proof (notes_count_le c ns Hwf). rewrite !app_length. lia.
 Qed.
 
@@ -206,26 +209,26 @@ Proof.
 Qed.
 
 (* ================================================================== the two views *)
-Theorem views_agree c img sh ph :
+Theorem views_agree c img adv sh ph :
   rec_z sh "sh_offset" = rec_z ph "p_offset" -> rec_z sh "sh_size" = rec_z ph "p_filesz" ->
-  NoteSection_iter_notes c img sh = NoteSegment_iter_notes c img ph.
+  NoteSection_iter_notes c img adv sh = NoteSegment_iter_notes c img adv ph.
 Proof. intros H1 H2. unfold NoteSection_iter_notes, NoteSegment_iter_notes. rewrite H1, H2. reflexivity. Qed.
 
 (* image level: a section header and a program header, wherever they lie in the file, that
    describe the same extent give the same — exact — notes *)
-Theorem views_exact c ns (pre tail : list Z) shoff phoff sh ph :
+Theorem views_exact c adv adv' ns (pre tail : list Z) shoff phoff sh ph :
   wf_cfg c = true -> wf_notes (scfg_of c) ns = true ->
   let img := pre ++ encode_notes (scfg_of c) ns ++ tail in
   section_header_at c img shoff = Ok sh -> segment_header_at c img phoff = Ok ph ->
   rec_z sh "sh_offset" = zlen pre -> rec_z sh "sh_size" = zlen (encode_notes (scfg_of c) ns) ->
   rec_z ph "p_offset" = zlen pre -> rec_z ph "p_filesz" = zlen (encode_notes (scfg_of c) ns) ->
-  section_notes_at c img shoff = Ok (expected_notes (scfg_of c) (zlen pre) ns, None) /\
-  segment_notes_at c img phoff = Ok (expected_notes (scfg_of c) (zlen pre) ns, None).
+  section_notes_at c img adv shoff = Ok (expected_notes (scfg_of c) (zlen pre) ns, None) /\
+  segment_notes_at c img adv' phoff = Ok (expected_notes (scfg_of c) (zlen pre) ns, None).
 Proof.
   intros Hc Hwf img Hsh Hph H1 H2 H3 H4.
   unfold section_notes_at, segment_notes_at. rewrite Hsh, Hph. cbn [bind].
   unfold NoteSection_iter_notes, NoteSegment_iter_notes. rewrite H1, H2, H3, H4.
-  unfold img. rewrite (notes_exact c ns pre tail Hc Hwf). split; reflexivity.
+  unfold img. rewrite (notes_exact c adv ns pre tail Hc Hwf), (notes_exact c adv' ns pre tail Hc Hwf). split; reflexivity.
 Qed.
 
 (* ================================================================== stabs *)
@@ -239,13 +242,13 @@ Proof.
   destruct le; reflexivity.
 Qed.
 
-Lemma iter_stabs_go_ok c : forall ss fuel img (A R : list Z),
+Lemma iter_stabs_go_ok c adv : forall ss fuel i img (A R : list Z),
   (length ss < fuel)%nat -> forallb (wf_stab (c_le c)) ss = true ->
   img = A ++ encode_stabs (c_le c) ss ++ R ->
-  iter_stabs_go fuel c img (zlen A) (zlen A + zlen (encode_stabs (c_le c) ss))
+  iter_stabs_go fuel c img adv i (zlen A) (zlen A + zlen (encode_stabs (c_le c) ss))
   = (expected_stabs (c_le c) (zlen A) ss, None).
 Proof.
-  induction ss as [|s ss IH]; intros fuel img A R Hfuel Hwf Hi.
+  induction ss as [|s ss IH]; intros fuel i img A R Hfuel Hwf Hi.
   - destruct fuel as [|f]; [cbn in Hfuel; lia|].
     cbn [iter_stabs_go encode_stabs map concat expected_stabs]. change (zlen (@nil Z)) with 0.
     destruct (Z.ltb_spec (zlen A) (zlen A + 0)); [lia|]. reflexivity.
@@ -258,27 +261,28 @@ Proof.
     destruct (Z.ltb_spec (zlen A)
                 (zlen A + (zlen (encode_layout (stab_layout (c_le c)) s) + zlen (encode_stabs (c_le c) ss)))); [|lia].
     rewrite <- app_assoc in Hi.
-    rewrite sizeof_stabs. rewrite gen_Elf_Stabs_gabi.
+    unfold one_stab. rewrite sizeof_stabs. rewrite gen_Elf_Stabs_gabi.
     rewrite (struct_parse_at_ok (spec_Elf_Stabs (c_le c)) s img A _ (zlen A) Hs Hi eq_refl).
+    cbn [bind].
     replace (zlen A + 12) with (zlen (A ++ encode_layout (stab_layout (c_le c)) s))
       by (rewrite zlen_app; lia).
     replace (zlen A + (zlen (encode_layout (stab_layout (c_le c)) s) + zlen (encode_stabs (c_le c) ss)))
       with (zlen (A ++ encode_layout (stab_layout (c_le c)) s) + zlen (encode_stabs (c_le c) ss))
       by (rewrite zlen_app; lia).
-    rewrite (IH f img (A ++ encode_layout (stab_layout (c_le c)) s) R); [reflexivity | lia | exact Hss |].
+    rewrite (IH f (S i) img (A ++ encode_layout (stab_layout (c_le c)) s) R); [reflexivity | lia | exact Hss |].
     rewrite Hi, <- !app_assoc. reflexivity.
 Qed.
 
 (* a stab section (header fields sh_offset, sh_size) over any image that holds the encoded
    records there yields exactly the records with their offsets *)
-Theorem stabs_exact c ss (pre tail : list Z) sh :
+Theorem stabs_exact c adv ss (pre tail : list Z) sh :
   forallb (wf_stab (c_le c)) ss = true ->
   rec_z sh "sh_offset" = zlen pre -> rec_z sh "sh_size" = zlen (encode_stabs (c_le c) ss) ->
-  StabSection_iter_stabs c (pre ++ encode_stabs (c_le c) ss ++ tail) sh
+  StabSection_iter_stabs c (pre ++ encode_stabs (c_le c) ss ++ tail) adv sh
   = (expected_stabs (c_le c) (zlen pre) ss, None).
 Proof.
   intros Hwf H1 H2. unfold StabSection_iter_stabs. rewrite H1, H2.
-  apply (iter_stabs_go_ok c ss _ _ pre tail); [| exact Hwf | reflexivity].
+  apply (iter_stabs_go_ok c adv ss _ _ _ pre tail); [| exact Hwf | reflexivity].
   assert (Hge : (length ss <= length (encode_stabs (c_le c) ss))%nat).
   { clear H1 H2. induction ss as [|s ss IH]; [cbn; lia|].
     cbn [forallb] in Hwf. apply andb_prop in Hwf. destruct Hwf as [Hs Hss].
@@ -318,26 +322,26 @@ Qed.
 
 (* two section headers that locate the same bytes enumerate the same stabs, on every image:
    sh_entsize, sh_link, sh_info, sh_addralign, sh_flags, sh_addr, ... do not matter *)
-Theorem stabs_header_free c img sh sh' :
+Theorem stabs_header_free c img adv sh sh' :
   rec_z sh "sh_offset" = rec_z sh' "sh_offset" -> rec_z sh "sh_size" = rec_z sh' "sh_size" ->
-  StabSection_iter_stabs c img sh = StabSection_iter_stabs c img sh'.
+  StabSection_iter_stabs c img adv sh = StabSection_iter_stabs c img adv sh'.
 Proof. intros H1 H2. unfold StabSection_iter_stabs. rewrite H1, H2. reflexivity. Qed.
 
 (* in particular: overriding sh_entsize (or any field other than sh_offset / sh_size) with any value *)
-Theorem stabs_field_irrelevant c img sh f v :
+Theorem stabs_field_irrelevant c img adv sh f v :
   f <> "sh_offset" -> f <> "sh_size" ->
-  StabSection_iter_stabs c img ((f, v) :: sh) = StabSection_iter_stabs c img sh.
+  StabSection_iter_stabs c img adv ((f, v) :: sh) = StabSection_iter_stabs c img adv sh.
 Proof.
   intros H1 H2. apply stabs_header_free; unfold rec_z; cbn [rec_get].
   - destruct (String.eqb_spec f "sh_offset") as [E|_]; [contradiction|reflexivity].
   - destruct (String.eqb_spec f "sh_size") as [E|_]; [contradiction|reflexivity].
 Qed.
 
-Theorem notes_header_free c img sh sh' ph ph' :
+Theorem notes_header_free c img adv sh sh' ph ph' :
   rec_z sh "sh_offset" = rec_z sh' "sh_offset" -> rec_z sh "sh_size" = rec_z sh' "sh_size" ->
   rec_z ph "p_offset" = rec_z ph' "p_offset" -> rec_z ph "p_filesz" = rec_z ph' "p_filesz" ->
-  NoteSection_iter_notes c img sh = NoteSection_iter_notes c img sh' /\
-  NoteSegment_iter_notes c img ph = NoteSegment_iter_notes c img ph'.
+  NoteSection_iter_notes c img adv sh = NoteSection_iter_notes c img adv sh' /\
+  NoteSegment_iter_notes c img adv ph = NoteSegment_iter_notes c img adv ph'.
 Proof.
   intros H1 H2 H3 H4. unfold NoteSection_iter_notes, NoteSegment_iter_notes.
   rewrite H1, H2, H3, H4. split; reflexivity.
@@ -346,12 +350,12 @@ Qed.
 (* file level, every header field a parameter: the image holds the encoded records at [pre] and
    a section header [h] (any sh_name, sh_type, sh_flags, sh_addr, sh_link, sh_info, sh_addralign,
    sh_entsize that fit their fields) anywhere *)
-Theorem stabs_file_exact c ss (pre tail A R : list Z) h img :
+Theorem stabs_file_exact c adv ss (pre tail A R : list Z) h img :
   forallb (wf_stab (c_le c)) ss = true -> wf_shdr (c_le c) (c_is64 c) h = true ->
   sh_offset h = zlen pre -> sh_size h = zlen (encode_stabs (c_le c) ss) ->
   img = pre ++ encode_stabs (c_le c) ss ++ tail ->
   img = A ++ encode_shdr (c_le c) (c_is64 c) h ++ R ->
-  section_stabs_at c img (zlen A) = Ok (expected_stabs (c_le c) (zlen pre) ss, None).
+  section_stabs_at c img adv (zlen A) = Ok (expected_stabs (c_le c) (zlen pre) ss, None).
 Proof.
   intros Hwf Hh Ho Hs Hi Hi'. unfold section_stabs_at.
   rewrite (section_header_at_ok c img A R h Hh Hi'). cbn [bind].
@@ -360,7 +364,7 @@ Proof.
 Qed.
 
 (* the same for notes: section header and program header with every other field free *)
-Theorem notes_file_exact c ns (pre tail A R A' R' : list Z) h p img :
+Theorem notes_file_exact c adv adv' ns (pre tail A R A' R' : list Z) h p img :
   wf_cfg c = true -> wf_notes (scfg_of c) ns = true ->
   wf_shdr (c_le c) (c_is64 c) h = true -> wf_phdr (c_le c) (c_is64 c) p = true ->
   sh_offset h = zlen pre -> sh_size h = zlen (encode_notes (scfg_of c) ns) ->
@@ -368,8 +372,8 @@ Theorem notes_file_exact c ns (pre tail A R A' R' : list Z) h p img :
   img = pre ++ encode_notes (scfg_of c) ns ++ tail ->
   img = A ++ encode_shdr (c_le c) (c_is64 c) h ++ R ->
   img = A' ++ encode_phdr (c_le c) (c_is64 c) p ++ R' ->
-  section_notes_at c img (zlen A) = Ok (expected_notes (scfg_of c) (zlen pre) ns, None) /\
-  segment_notes_at c img (zlen A') = Ok (expected_notes (scfg_of c) (zlen pre) ns, None).
+  section_notes_at c img adv (zlen A) = Ok (expected_notes (scfg_of c) (zlen pre) ns, None) /\
+  segment_notes_at c img adv' (zlen A') = Ok (expected_notes (scfg_of c) (zlen pre) ns, None).
 Proof.
   intros Hc Hwf Hh Hp Ho Hs Hpo Hps Hi Hi1 Hi2.
   pose proof (section_header_at_ok c img A R h Hh Hi1) as Hsh.
@@ -377,5 +381,42 @@ Proof.
   destruct (shdr_offset_size (c_le c) (c_is64 c) h) as [E1 [E2 _]].
   destruct (phdr_offset_size (c_le c) (c_is64 c) p) as [E3 E4].
   rewrite Hi in Hsh, Hph. rewrite Hi.
-  apply (views_exact c ns pre tail (zlen A) (zlen A') _ _ Hc Hwf Hsh Hph); congruence.
+  apply (views_exact c adv adv' ns pre tail (zlen A) (zlen A') _ _ Hc Hwf Hsh Hph); congruence.
 Qed.
+
+(* ================================================================== every read of the walk is absolute *)
+(* a step does not depend on the cursor it is resumed with: its first read seeks *)
+Lemma one_note_cursor_free c img cur cur' offset : one_note c img cur offset = one_note c img cur' offset.
+Proof. reflexivity. Qed.
+Lemma one_stab_cursor_free c img cur cur' offset : one_stab c img cur offset = one_stab c img cur' offset.
+Proof. reflexivity. Qed.
+
+Lemma iter_notes_go_cursor_free c img adv adv' : forall fuel i i' offset end_,
+  iter_notes_go fuel c img adv i offset end_ = iter_notes_go fuel c img adv' i' offset end_.
+Proof.
+  induction fuel as [|f IH]; intros i i' offset end_; [reflexivity|].
+  cbn [iter_notes_go]. rewrite (one_note_cursor_free c img (adv i) (adv' i') offset).
+  destruct (offset + sizeof (Elf_Nhdr c) <=? end_); [|reflexivity].
+  destruct (one_note c img (adv' i') offset) as [[n offset']|e]; [|reflexivity].
+  rewrite (IH (S i) (S i') offset' end_). reflexivity.
+Qed.
+
+Lemma iter_stabs_go_cursor_free c img adv adv' : forall fuel i i' offset end_,
+  iter_stabs_go fuel c img adv i offset end_ = iter_stabs_go fuel c img adv' i' offset end_.
+Proof.
+  induction fuel as [|f IH]; intros i i' offset end_; [reflexivity|].
+  cbn [iter_stabs_go]. rewrite (one_stab_cursor_free c img (adv i) (adv' i') offset).
+  destruct (offset <? end_); [|reflexivity].
+  destruct (one_stab c img (adv' i') offset) as [[r offset']|e]; [|reflexivity].
+  rewrite (IH (S i) (S i') offset' end_). reflexivity.
+Qed.
+
+(* whatever the consumer does with the stream between two yields (other reads, another walk in
+   lock step, seeks): the notes / stabs yielded are the same, on every image, well-formed or not *)
+Theorem notes_cursor_free c img adv adv' offset size :
+  iter_notes c img adv offset size = iter_notes c img adv' offset size.
+Proof. unfold iter_notes. apply iter_notes_go_cursor_free. Qed.
+
+Theorem stabs_cursor_free c img adv adv' sh :
+  StabSection_iter_stabs c img adv sh = StabSection_iter_stabs c img adv' sh.
+Proof. unfold StabSection_iter_stabs. apply iter_stabs_go_cursor_free. Qed.
